@@ -307,32 +307,84 @@ func varRefToGo(tGo func(FType) string, vr VarRef) string {
 	}
 }
 
+func isInertArg(e Expr) bool {
+	switch _v9 := (e).(type) {
+	case Expr_EFunCall:
+		fc := _v9.Value
+		given := slice.Length(fc.Args)
+		wanted := frt.Pipe(frt.Pipe(fcToFuncType(fc), fargs), slice.Length)
+		return ((given < wanted) && slice.Forall(isInertArg, fc.Args))
+	case Expr_EStringLiteral:
+		return true
+	case Expr_EIntImm:
+		return true
+	case Expr_EBoolLiteral:
+		return true
+	case Expr_EUnit:
+		return true
+	case Expr_EVarRef:
+		return true
+	case Expr_ELambda:
+		return true
+	case Expr_EFieldAccess:
+		fa := _v9.Value
+		switch (fa.TargetExpr).(type) {
+		case Expr_EVarRef:
+			return true
+		default:
+			return false
+		}
+	default:
+		return false
+	}
+}
+
+func partialArgGo(eGo func(Expr) string, i int, e Expr) frt.Tuple2[string, string] {
+	ego := eGo(e)
+	return frt.IfElse(isInertArg(e), (func() frt.Tuple2[string, string] {
+		return frt.NewTuple2(ego, "")
+	}), (func() frt.Tuple2[string, string] {
+		name := frt.SInterP("_p%s", i)
+		return frt.NewTuple2(name, frt.SInterP("%s := %s; ", name, ego))
+	}))
+}
+
 func fcPartialApplyGo(tGo func(FType) string, eGo func(Expr) string, fc FunCall) string {
 	funcType := fcToFuncType(fc)
 	fargTypes := fargs(funcType)
 	argNum := slice.Length(fc.Args)
 	restTypes := slice.Skip(argNum, fargTypes)
 	restParamNames := slice.Mapi(ftiToParamName, restTypes)
+	argPairs := slice.Mapi((func(_r0 int, _r1 Expr) frt.Tuple2[string, string] { return partialArgGo(eGo, _r0, _r1) }), fc.Args)
+	binds := frt.Pipe(slice.Map(frt.Snd, argPairs), (func(_r0 []string) string { return strings.Concat("", _r0) }))
+	fret := freturn(funcType)
 	b := buf.New()
-	buf.Write(b, "(func (")
+	buf.Write(b, "func (")
 	frt.PipeUnit(frt.Pipe(frt.Pipe(slice.Zip(restParamNames, restTypes), (func(_r0 []frt.Tuple2[string, FType]) []string {
 		return slice.Map((func(_r0 frt.Tuple2[string, FType]) string { return ntpairToParam(tGo, _r0) }), _r0)
 	})), (func(_r0 []string) string { return strings.Concat(", ", _r0) })), (func(_r0 string) { buf.Write(b, _r0) }))
 	buf.Write(b, ") ")
-	fret := freturn(funcType)
+	frt.IfOnly(frt.OpNotEqual(fret, New_FType_FUnit), (func() {
+		frt.PipeUnit(tGo(fret), (func(_r0 string) { buf.Write(b, _r0) }))
+	}))
+	sig := buf.String(b)
 	frt.IfElseUnit(frt.OpEqual(fret, New_FType_FUnit), (func() {
 		buf.Write(b, "{ ")
 	}), (func() {
-		frt.PipeUnit(tGo(fret), (func(_r0 string) { buf.Write(b, _r0) }))
 		buf.Write(b, "{ return ")
 	}))
 	frt.PipeUnit(varRefToGo(tGo, fc.TargetFunc), (func(_r0 string) { buf.Write(b, _r0) }))
 	buf.Write(b, "(")
-	frt.PipeUnit(frt.Pipe(slice.Map(eGo, fc.Args), (func(_r0 []string) string { return strings.Concat(", ", _r0) })), (func(_r0 string) { buf.Write(b, _r0) }))
+	frt.PipeUnit(frt.Pipe(slice.Map(frt.Fst, argPairs), (func(_r0 []string) string { return strings.Concat(", ", _r0) })), (func(_r0 string) { buf.Write(b, _r0) }))
 	buf.Write(b, ", ")
 	frt.PipeUnit(strings.Concat(", ", restParamNames), (func(_r0 string) { buf.Write(b, _r0) }))
-	buf.Write(b, ") })")
-	return buf.String(b)
+	buf.Write(b, ") }")
+	clo := buf.String(b)
+	return frt.IfElse(frt.OpEqual(binds, ""), (func() string {
+		return frt.SInterP("(%s)", clo)
+	}), (func() string {
+		return frt.SInterP("(func () %s { %sreturn %s })()", sig, binds, clo)
+	}))
 }
 
 func fcUnitArgOnly(fc FunCall) bool {
@@ -433,53 +485,53 @@ func ExprToGo(sToGo func(Stmt) string, expr Expr) string {
 	eToGo := (func(_r0 Expr) string { return ExprToGo(sToGo, _r0) })
 	reToGoRet := (func(_r0 ReturnableExpr) string { return reToGoReturn(sToGo, eToGo, _r0) })
 	bToGoRet := (func(_r0 Block) string { return blockToGoReturn(sToGo, eToGo, reToGoRet, _r0) })
-	switch _v9 := (expr).(type) {
+	switch _v10 := (expr).(type) {
 	case Expr_EBoolLiteral:
-		b := _v9.Value
+		b := _v10.Value
 		return frt.Sprintf1("%t", b)
 	case Expr_EGoEvalExpr:
-		ge := _v9.Value
+		ge := _v10.Value
 		return reinterpretEscape(ge.GoStmt)
 	case Expr_EStringLiteral:
-		s := _v9.Value
+		s := _v10.Value
 		return frt.Sprintf1("\"%s\"", s)
 	case Expr_ESInterP:
-		sp := _v9.Value
+		sp := _v10.Value
 		return sinterpToGo(sp)
 	case Expr_EIntImm:
-		i := _v9.Value
+		i := _v10.Value
 		return frt.Sprintf1("%d", i)
 	case Expr_EUnit:
 		return ""
 	case Expr_EFieldAccess:
-		fa := _v9.Value
+		fa := _v10.Value
 		return faToGo(eToGo, fa)
 	case Expr_EVarRef:
-		vr := _v9.Value
+		vr := _v10.Value
 		return varRefName(vr)
 	case Expr_ESlice:
-		es := _v9.Value
+		es := _v10.Value
 		return sliceToGo(FTypeToGo, eToGo, es)
 	case Expr_ETupleExpr:
-		es := _v9.Value
+		es := _v10.Value
 		return tupleToGo(eToGo, es)
 	case Expr_ELambda:
-		le := _v9.Value
+		le := _v10.Value
 		return lambdaToGo(bToGoRet, le)
 	case Expr_EBinOpCall:
-		bop := _v9.Value
+		bop := _v10.Value
 		return binOpToGo(eToGo, bop)
 	case Expr_ERecordGen:
-		rg := _v9.Value
+		rg := _v10.Value
 		return rgToGo(eToGo, rg)
 	case Expr_EReturnableExpr:
-		re := _v9.Value
+		re := _v10.Value
 		return reToGo(sToGo, eToGo, re)
 	case Expr_EFunCall:
-		fc := _v9.Value
+		fc := _v10.Value
 		return fcToGo(FTypeToGo, eToGo, fc)
 	case Expr_ELazyBlock:
-		lb := _v9.Value
+		lb := _v10.Value
 		return lbToGo(bToGoRet, lb)
 	default:
 		panic("Union pattern fail. Never reached here.")
